@@ -53,5 +53,9 @@ func main() {
 			panic(err)
 		}
 		wr.Flush()
+		if st, _ := out["st"].(string); st == "timeout" {
+			// the abandoned goroutine keeps burning a core: leave, the driver restarts us
+			os.Exit(3)
+		}
 	}
 }
